@@ -168,4 +168,15 @@ def gen_load_case(rng: random.Random, tier: str, prop: str, k: int = -1) -> Dict
                     if "ts" in e:
                         e["ts"] += delta
                 r.base += delta
+    if prop == "C01" and k % 10 == 4:
+        # two entries that are identical in every field (the same user annotation recorded twice on one thread): still two complete events
+        import copy as _copy
+        for r in ranks:
+            ops = [e for e in r.events if e.get("ph") == "X" and e.get("cat") == "cpu_op" and e.get("dur", 0) > 0]
+            if ops:
+                twin = _copy.deepcopy(ops[k % len(ops)])
+                twin["cat"], twin["name"] = "user_annotation", "my_region"
+                twin["args"] = {"External id": twin.get("args", {}).get("External id", 0)}
+                r.events.append(twin)
+                r.events.append(_copy.deepcopy(twin))
     return {"ranks": [r.__dict__ for r in ranks], "u": cfg.frac, "incl": rng.random() < 0.5, "env_off": rng.random() < 0.3}
